@@ -226,14 +226,20 @@ func VPH_augment() {
 		p   string
 	}
 	groups := []string{"foo", "foobar", "Foo", "foo.sub", "tags", ""} // "" = an entry directly under [refgroup]
+	nkinds, nvalues := 4, len(vpPrefixMenu)
+	if vp_Param("smallmenu") == 1 {
+		// longer listings over a smaller menu: interleavings of one group's entries with other groups'
+		groups = []string{"foo", "foobar", "foo.sub"}
+		nkinds, nvalues = 3, 3
+	}
 	rules := map[string][]rule{}
 	names := map[string]string{}
 	nameSet := map[string]bool{}
 	seen := map[string]bool{}
 	for i := 0; i < k; i++ {
 		grp := groups[vp_Choice("group", len(groups))]
-		kind := vp_Choice("kind", 4)
-		val := vpPrefixMenu[vp_Choice("value", len(vpPrefixMenu))]
+		kind := vp_Choice("kind", nkinds)
+		val := vpPrefixMenu[vp_Choice("value", nvalues)]
 		key := []string{"include", "exclude", "name", "bogus"}[kind]
 		if grp == "" {
 			// `[refgroup] include = ...` names no group: it must not reach any group
